@@ -100,6 +100,8 @@ class FakeMicrogridApi:
         self.components_failures = 0      # the next N calls of components() raise an ApiClientError
         self.failure_times: list[int] = []
         self.outcome_fn: Callable[[int, float], tuple[str, int]] = lambda cid, w: ("ok", 0)
+        self.open_delay_fn: Callable[[int], int] = lambda cid: 0
+        self.on_open: Callable[[int, bool], None] = lambda cid, begin: None
         for c in sorted(components, key=lambda c: c.component_id):
             ch: Broadcast[Any] = Broadcast(name=f"api-data-{c.component_id}")
             self.chan[c.component_id] = ch
@@ -116,21 +118,31 @@ class FakeMicrogridApi:
     async def connections(self, *a: Any, **k: Any) -> set[Connection]:
         return self._connections
 
-    def _rx(self, cid: int, maxsize: int) -> Any:
+    async def _rx(self, cid: int, maxsize: int) -> Any:
+        # opening a component data stream may take time (it is an `async def` in the real client): the harness can
+        # draw a delay per call and is told when the opening begins and ends
+        delay_us = self.open_delay_fn(cid)
+        if delay_us:
+            self.sim.fault("api_stream_opening_slow")
+            self.on_open(cid, True)
+            try:
+                await asyncio.sleep(delay_us / 1e6)
+            finally:
+                self.on_open(cid, False)
         self.receivers_created[cid] = self.receivers_created.get(cid, 0) + 1
         return self.chan[cid].new_receiver(limit=maxsize)
 
     async def battery_data(self, component_id: int, maxsize: int = 50) -> Any:
-        return self._rx(component_id, maxsize)
+        return await self._rx(component_id, maxsize)
 
     async def inverter_data(self, component_id: int, maxsize: int = 50) -> Any:
-        return self._rx(component_id, maxsize)
+        return await self._rx(component_id, maxsize)
 
     async def meter_data(self, component_id: int, maxsize: int = 50) -> Any:
-        return self._rx(component_id, maxsize)
+        return await self._rx(component_id, maxsize)
 
     async def ev_charger_data(self, component_id: int, maxsize: int = 50) -> Any:
-        return self._rx(component_id, maxsize)
+        return await self._rx(component_id, maxsize)
 
     def push(self, cid: int, msg: Any) -> None:
         """Deliver a data message now (called from an external event)."""
